@@ -21,6 +21,9 @@ pub enum Variant {
     EqualXDifferentY,
     DifferentEpoch,
     DifferentMessageId,
+    /// two different 32-byte signals that are the same number modulo p when read as little-endian
+    /// integers (v and v + k*p): different signals all the same
+    AliasedSignals,
 }
 
 #[derive(Clone, Debug, Serialize, Deserialize)]
@@ -44,7 +47,15 @@ pub fn rln() -> &'static rln::public::RLN {
 /// message bytes [128 filler | values | (len | signal)] built from zerokit's own
 /// proof_values_from_witness; also returns the values as zerokit computed them
 fn message(s: &Fx, e: &Fx, m: &Fx, signal: &[u8], filler: u8, tail: bool, o: &mut Outcome) -> Option<(Vec<u8>, cr::ValuesRef)> {
-    let x = formulas::hash_to_field_ref(signal);
+    // x as a sender computes it: zerokit's own signal hash (its agreement with Keccak is C09's
+    // business; here two different signals must give two different shares)
+    let x = match guarded(|| rln::hashers::hash_to_field(signal)) {
+        Ok(x) => fr_to_big(&x),
+        Err(pn) => {
+            vfail!(o, "hash_to_field panicked on a {}-byte signal: {}", signal.len(), pn.0);
+            return None;
+        }
+    };
     let w = Wit {
         s: *s,
         limit: fxb(&(p() - 1u32)),
@@ -180,6 +191,17 @@ fn recover_rust(m1: &[u8], m2: &[u8]) -> Rec {
 pub fn check_case(ctx: &Ctx, c: &Case, o: &mut Outcome) {
     let sig1 = c.sig1.expand();
     let mut sig2 = c.sig2.expand();
+    let mut sig1 = sig1;
+    if c.variant == Variant::AliasedSignals {
+        let v = c.other.big();
+        let k = (c.proof_filler % 5) as u32 + 1;
+        let mut a = v.to_bytes_le();
+        a.resize(32, 0);
+        let mut b = (&v + p() * k).to_bytes_le();
+        b.resize(32, 0);
+        sig1 = a;
+        sig2 = b;
+    }
     if c.variant == Variant::SameSignalTwice {
         sig2 = sig1.clone();
     } else if sig2 == sig1 {
@@ -220,9 +242,9 @@ pub fn check_case(ctx: &Ctx, c: &Case, o: &mut Outcome) {
     }
     o.evals = 3;
     match c.variant {
-        Variant::TwoSignals => {
+        Variant::TwoSignals | Variant::AliasedSignals => {
             if v1.x == v2.x {
-                o.label("keccak-collision?!");
+                vfail!(o, "two different signals ({} and {} bytes) give the same share coordinate x = {}: the secret of a member who sent both cannot be recovered", sig1.len(), sig2.len(), v1.x);
                 return;
             }
             for (a, b) in [(&msg1, &msg2), (&msg2, &msg1)] {
@@ -291,7 +313,7 @@ impl Property for C03 {
         "C03"
     }
     fn rule(&self) -> String {
-        "(secret, external nullifier, message id, signal1, signal2) boundary-weighted, five forced variants (two different signals; same signal twice = identical shares; equal x with different y; different external nullifier; different message id), with and without the trailing signal_len|signal; messages = [128 filler bytes | proof values from proof_values_from_witness]; \
+        "(secret, external nullifier, message id, signal1, signal2) boundary-weighted, six forced variants (two different signals; two different 32-byte signals that are congruent modulo p as little-endian integers; same signal twice = identical shares; equal x with different y; different external nullifier; different message id), with and without the trailing signal_len|signal; messages = [128 filler bytes | proof values from proof_values_from_witness with x = zerokit's own hash of the signal]; \
          oracle: nullifiers equal iff (s,e,m) equal and equal to the reference H(H(s,e,m)); recovery returns exactly s in both argument orders; different external nullifiers give an empty result; degenerate pairs give error/empty, never a panic. A few real generate_rln_proof message pairs are recovered in the fixed part. \
          non-trivial = a degenerate/negative variant, or a recoverable pair with a boundary field value; distinct by case content".into()
     }
@@ -308,6 +330,7 @@ impl Property for C03 {
     fn strategy(&self, _tier: Tier, _shard: usize) -> BoxedStrategy<Case> {
         let variant = prop_oneof![
             5 => Just(Variant::TwoSignals),
+            1 => Just(Variant::AliasedSignals),
             1 => Just(Variant::SameSignalTwice),
             1 => Just(Variant::EqualXDifferentY),
             2 => Just(Variant::DifferentEpoch),
